@@ -1175,7 +1175,7 @@ class DatetimeConverter(Converter[DatetimeT], t.Generic[DatetimeT]):
             # datetime to datetime
             datetime.datetime: lambda dt: t.cast(DatetimeT, dt),
             # datetime to time
-            datetime.time: lambda dt: t.cast(DatetimeT, dt.time()),
+            datetime.time: lambda dt: t.cast(DatetimeT, dt.timetz()),
             # datetime to date
             datetime.date: lambda dt: t.cast(DatetimeT, dt.date()),
         }
